@@ -17,6 +17,8 @@ from .pyaes import aes, blockfeeder
 @register_AES128
 class AES128Proxy(AES128Base):
     def encrypt(self, data: bytes) -> bytes:
+        if not data:
+            return bytes()
         mode = aes.AESModeOfOperationCBC(self._key, self._iv)
         encryptor = blockfeeder.Encrypter(mode, padding="none")
         pad_length = -len(data) % AES128Base.BLOCK_SIZE
@@ -26,6 +28,10 @@ class AES128Proxy(AES128Base):
         return ciphertext
 
     def decrypt(self, data: bytes) -> bytes:
+        if len(data) % AES128Base.BLOCK_SIZE != 0:
+            raise ValueError("ciphertext length is not a multiple of the block size")
+        if not data:
+            return bytes()
         mode = aes.AESModeOfOperationCBC(self._key, self._iv)
         decryptor = blockfeeder.Decrypter(mode, padding="none")
         plaintext_padded = decryptor.feed(data)
